@@ -8,13 +8,13 @@ variable {σ : Type}
 
 def KeyInv (s : State σ) : Prop := ∀ kf ∈ s.fdtReceivers, kf.2.fdtId = kf.1
 
-theorem fdtEntry_key (I : ObjIface σ) (s : State σ) (id : Nat) (h : KeyInv s) :
-    KeyInv (fdtEntry I s id).1 ∧ (fdtEntry I s id).2.fdtId = id := by
+theorem fdtEntry_key (I : ObjIface σ) (s : State σ) (id : Nat) (p : Pkt) (h : KeyInv s) :
+    KeyInv (fdtEntry I s id p).1 ∧ (fdtEntry I s id p).2.fdtId = id := by
   unfold fdtEntry
   split
   · rename_i f hf
-    exact ⟨h, h (id, f) (alookup_mem hf)⟩
-  · refine ⟨?_, rfl⟩
+    exact ⟨h, by simp only []; rw [(noteFti_fields f p.fti).1]; exact h (id, f) (alookup_mem hf)⟩
+  · refine ⟨?_, by simp only []; rw [(noteFti_fields _ p.fti).1]; rfl⟩
     intro kf hkf
     rcases mem_ainsert hkf with hkf | hkf
     · subst hkf; rfl
@@ -55,7 +55,7 @@ theorem fdtDispatch_receivers (I : ObjIface σ) (s s' : State σ) (id : Nat) (f 
   · simp only [Except.ok.injEq, Prod.mk.injEq] at h
     obtain ⟨rfl, _, _⟩ := h; exact fun kf h => h
   · simp only [Except.ok.injEq, Prod.mk.injEq] at h
-    obtain ⟨rfl, _, _⟩ := h; exact fun kf h => h
+    obtain ⟨rfl, _, _⟩ := h; exact fun kf h => mem_aerase h
   · split at h
     · cases h
     · split at h
@@ -63,18 +63,19 @@ theorem fdtDispatch_receivers (I : ObjIface σ) (s s' : State σ) (id : Nat) (f 
       · split at h
         · cases h
         · simp only [Except.ok.injEq, Prod.mk.injEq] at h
-          obtain ⟨rfl, _, _⟩ := h; exact fun kf h => h
+          obtain ⟨rfl, _, _⟩ := h; exact fun kf h => mem_aerase h
   · exact fdtCompleted_receivers I s s' id r evs h
 
 /-- keyed version of `pushFdtObj_all`: the pushed instance is the one registered under the packet's id -/
-theorem pushFdtObj_allK (I : ObjIface σ) (P : FdtRecv σ → Prop) (s s' : State σ) (p : Pkt) (now : Int)
+theorem pushFdtObjP_allK (I : ObjIface σ) (P : FdtRecv σ → Prop) (s s' : State σ) (p : Pkt) (now : Int)
     (ans : FdtAns) (r : Res) (evs : List Ev)
+    (hnote : ∀ f v, P f → P (f.noteFti v))
     (hnew : ∀ id, p.fdtId = some id → P (FdtRecv.new I id s.cfg.expCheck))
     (hpush : ∀ id, p.fdtId = some id → ∀ f, f.fdtId = id → P f → P (f.push I p now ans))
     (hupd : ∀ f f', P f → f.updateExpired now = .ok f' → P f')
-    (h : pushFdtObj I s p now ans = .ok (s', r, evs)) (hall : AllFdt P s) (hk : KeyInv s) :
+    (h : pushFdtObj' I s p now ans = .ok (s', r, evs)) (hall : AllFdt P s) (hk : KeyInv s) :
     (AllFdt P s' ∧ s'.cfg = s.cfg) ∧ KeyInv s' := by
-  unfold pushFdtObj at h
+  unfold pushFdtObj' at h
   split at h
   · split at h
     · simp only [Except.ok.injEq, Prod.mk.injEq] at h
@@ -86,8 +87,8 @@ theorem pushFdtObj_allK (I : ObjIface σ) (P : FdtRecv σ → Prop) (s s' : Stat
     split at h
     · simp only [Except.ok.injEq, Prod.mk.injEq] at h
       obtain ⟨rfl, _, _⟩ := h; exact ⟨⟨hall, rfl⟩, hk⟩
-    · have he := fdtEntry_all I P s id (hnew id hid) hall
-      have hke := fdtEntry_key I s id hk
+    · have he := fdtEntry_all I P s id p hnote (hnew id hid) hall
+      have hke := fdtEntry_key I s id p hk
       simp only [] at h
       split at h
       · simp only [Except.ok.injEq, Prod.mk.injEq] at h
@@ -97,22 +98,22 @@ theorem pushFdtObj_allK (I : ObjIface σ) (P : FdtRecv σ → Prop) (s s' : Stat
         · cases h
         · rename_i f hupd'
           have hpushed := hpush id hid _ hke.2 he.2.1
-          have hidp : ((fdtEntry I s id).2.push I (p) now ans).fdtId = id := by
+          have hidp : ((fdtEntry I s id p).2.push I (p) now ans).fdtId = id := by
             rw [(push_fields I _ p now ans).2.2.2.1]; exact hke.2
           have hPf : P f ∧ f.fdtId = id := by
             split at hupd'
             · exact ⟨hupd _ _ hpushed hupd', by rw [(updateExpired_fields hupd').1]; exact hidp⟩
             · injection hupd' with hupd'; subst hupd'; exact ⟨hpushed, hidp⟩
-          have hall2 : AllFdt P ({ (fdtEntry I s id).1 with
-              fdtReceivers := ainsert id f (fdtEntry I s id).1.fdtReceivers } : State σ) :=
+          have hall2 : AllFdt P ({ (fdtEntry I s id p).1 with
+              fdtReceivers := ainsert id f (fdtEntry I s id p).1.fdtReceivers } : State σ) :=
             ⟨he.1.1, by
               intro kf hkf
               simp only [] at hkf
               rcases mem_ainsert hkf with hkf | hkf
               · subst hkf; exact hPf.1
               · exact he.1.2 kf hkf⟩
-          have hk2 : KeyInv ({ (fdtEntry I s id).1 with
-              fdtReceivers := ainsert id f (fdtEntry I s id).1.fdtReceivers } : State σ) := by
+          have hk2 : KeyInv ({ (fdtEntry I s id p).1 with
+              fdtReceivers := ainsert id f (fdtEntry I s id p).1.fdtReceivers } : State σ) := by
             intro kf hkf
             simp only [] at hkf
             rcases mem_ainsert hkf with hkf | hkf
@@ -122,6 +123,20 @@ theorem pushFdtObj_allK (I : ObjIface σ) (P : FdtRecv σ → Prop) (s s' : Stat
           refine ⟨⟨this.1, by rw [this.2]; exact he.2.2⟩, ?_⟩
           intro kf hkf
           exact hk2 kf (fdtDispatch_receivers I _ s' id f now r evs h kf hkf)
+
+theorem pushFdtObj_allK (I : ObjIface σ) (P : FdtRecv σ → Prop) (s s' : State σ) (p : Pkt) (now : Int)
+    (ans : FdtAns) (r : Res) (evs : List Ev)
+    (hnote : ∀ f v, P f → P (f.noteFti v))
+    (hnew : ∀ id, p.fdtId = some id → P (FdtRecv.new I id s.cfg.expCheck))
+    (hpush : ∀ id, p.fdtId = some id → ∀ f, f.fdtId = id → P f → P (f.push I p now ans))
+    (hupd : ∀ f f', P f → f.updateExpired now = .ok f' → P f')
+    (h : pushFdtObj I s p now ans = .ok (s', r, evs)) (hall : AllFdt P s) (hk : KeyInv s) :
+    (AllFdt P s' ∧ s'.cfg = s.cfg) ∧ KeyInv s' := by
+  have hd := dropConflict_all P s p hall
+  have hkd : KeyInv (dropConflict s p) := fun kf hkf => hk kf ((dropConflict_frame s p).2.2.2.2.2.2 kf hkf)
+  have := pushFdtObjP_allK I P (dropConflict s p) s' p now ans r evs hnote
+    (fun id hid => by rw [hd.2]; exact hnew id hid) hpush hupd h hd.1 hkd
+  exact ⟨⟨this.1.1, by rw [this.1.2, hd.2]⟩, this.2⟩
 
 theorem updateExpiredAll_key (now : Int) :
     ∀ (l l' : List (Nat × FdtRecv σ)), updateExpiredAll now l = .ok l' →
@@ -149,6 +164,7 @@ theorem updateExpiredAll_key (now : Int) :
 /-- keyed generic step lemma: `hpush` only has to be shown for the instance of the packet's own id -/
 theorem step_allK (I : ObjIface σ) (P : FdtRecv σ → Prop) (s s' : State σ) (op : Op) (r : Res)
     (evs : List Ev)
+    (hnote : ∀ f v, P f → P (f.noteFti v))
     (hnew : ∀ p now ans id, op = .data (.pkt p) now ans → p.fdtId = some id → P (FdtRecv.new I id s.cfg.expCheck))
     (hpush : ∀ p now ans, op = .data (.pkt p) now ans → p.toi = 0 → ∀ id, p.fdtId = some id →
       ∀ f, f.fdtId = id → P f → P (f.push I p now ans))
@@ -176,7 +192,7 @@ theorem step_allK (I : ObjIface σ) (P : FdtRecv σ → Prop) (s s' : State σ) 
         split <;> exact hk
       split at h
       · rename_i htoi
-        have := pushFdtObj_allK I P _ s' p now ans r evs
+        have := pushFdtObj_allK I P _ s' p now ans r evs hnote
           (fun id hid => by rw [hcfg]; exact hnew p now ans id rfl hid)
           (hpush p now ans rfl htoi) hupd h hall' hk'
         exact ⟨⟨this.1.1, by rw [this.1.2, hcfg]⟩, this.2⟩
